@@ -287,7 +287,15 @@ fn gen_macro_misuse(u: &mut Chooser, depth: usize) -> String {
     if depth == 0 {
         return leaf(u);
     }
-    let g = |u: &mut Chooser| gen_macro_misuse(u, depth - 1);
+    // (arguments sometimes start on a new line: positions of errors found out of source order still have to be real)
+    let g = |u: &mut Chooser| {
+        let inner = gen_macro_misuse(u, depth - 1);
+        if u.chance(1, 4) {
+            format!("\n {inner}")
+        } else {
+            inner
+        }
+    };
     match u.below(12) {
         0 => format!("has({})", g(u)),
         1 => format!("has({}.f)", g(u)),
@@ -369,7 +377,7 @@ pub fn run(r: &mut Runner) {
             }
         }
     }
-    for s in ["has(has(a))", "[1, 2].all(b'\\u0041', true)", "x.exists(has(y), true)", "has(x.all(1, true))", "x.map(has(1), has(2), has(3))"] {
+    for s in ["-0x8000000000000000", "- 0x8000000000000000", "-0x08000000000000000", "[1].all(2,\n [3].all(4, true))", "x.map(1,\n\n y.map(2, 3),\n z.filter(4, 5))", "has(\n has(\n a))", "1U", "0xFFU", "[1u, 2U][1]", "has(has(a))", "[1, 2].all(b'\\u0041', true)", "x.exists(has(y), true)", "has(x.all(1, true))", "x.map(has(1), has(2), has(3))"] {
         fixed.push(Case::Text { family: 9, src: s.to_string() });
     }
     r.sweep("fixed-and-single-characters", fixed, check);
